@@ -38,6 +38,10 @@ CHECKS = {
         technique='differential runtime monitor: Project.get_module / norm_package / assist on import lines run on generated multi-root package trees and compared with importlib (PathFinder walk, resolve_name, pkgutil), the walk itself cross-checked by real imports in a child interpreter',
         text='For every dotted and relative name of every generated tree and roots order the file supp analyses, the ImportError cases and the sub-module proposals must agree with what importlib finds for roots + sys.path.',
         design='3/C07', engine=''),
+    'C08': dict(
+        technique='totality monitor: lint/assist/location of the real library are driven over real files, typing-state mutations, generated programs at every cursor position and a hostile input list; result shapes, the E01<->ast.parse relation, allowed exceptions (SyntaxError only when the independently marked text does not parse) and a deterministic interpreter-line-event budget (sys.monitoring) are checked; worker death is a violation',
+        text='Every call made must return a well-formed result or raise SyntaxError exactly when the cursor-marked text does not parse, within B(n) line events; lint must carry exactly CPython\'s SyntaxError as E01 iff the text does not parse.',
+        design='3/C08, 1.4', engine=''),
     'C09': dict(
         technique='history monitor: edit/request histories on a temp project are applied to one long-lived Project; every request under check_changes() is compared with the same request on a Project created at that moment; exhaustive over short histories on two fixed import chains, random long histories on random projects',
         text='After every enumerated or generated history of create/rewrite/touch operations (mtimes strictly increasing) each request on the long-lived project must equal the fresh project\'s answer; complete for all histories up to the stated length on the fixed chains.',
